@@ -1,5 +1,6 @@
 import QibGen.GatesReal
 import QibProofs.Lemmas.GateAlgebra
+import QibProofs.Lemmas.Embed
 import Mathlib.Tactic.NormNum
 import Mathlib.Tactic.Positivity
 /-!
@@ -306,5 +307,49 @@ theorem C03_circuit_inverse_mul {ι : Type} [Fintype ι] [DecidableEq ι] (gs : 
     simp only [List.reverse_cons, List.map_append, List.map_cons, List.map_nil, List.foldl_append, List.foldl_cons, List.foldl_nil, Matrix.mul_one]
     rw [key (ps.map Prod.fst) p.1, ← Matrix.mul_assoc, Matrix.mul_assoc p.2]
     rw [ih', Matrix.mul_one, hp]
+
+/-! ### circuits on a register: `Circuit.inverse` of the executable model (`Qib.Embed.circuitInverse`) -/
+
+/-- a gate placed on the wires `iw` of an `n`-wire register, together with the matrix of its `inverse()`
+(which the code binds to the same particles, hence the same wires) -/
+structure PlacedPair (n : ℕ) where
+  m : ℕ
+  iw : Fin m ↪ Fin n
+  g : Matrix (Fin m → Bool) (Fin m → Bool) ℂ
+  ginv : Matrix (Fin m → Bool) (Fin m → Bool) ℂ
+
+/-- `gate.inverse()` at the level of placed values -/
+def PlacedPair.inverse {n : ℕ} (p : PlacedPair n) : PlacedPair n := { p with g := p.ginv, ginv := p.g }
+
+/-- register matrix of a placed gate (C04: the embedding) -/
+def PlacedPair.mat {n : ℕ} (p : PlacedPair n) : Matrix (Fin n → Bool) (Fin n → Bool) ℂ := Qib.Embed.embed p.iw p.g
+
+/-- `Circuit.as_matrix`: left-multiplication loop, first gate applied first -/
+def regMat {n : ℕ} (c : List (PlacedPair n)) : Matrix (Fin n → Bool) (Fin n → Bool) ℂ :=
+  (c.map PlacedPair.mat).foldl (fun acc g => g * acc) 1
+
+/-- **C03 (circuits)**: for every circuit (any length, any wire assignment, overlapping or identical wire sets) on
+every register size, the matrix of `C.inverse()` – the model's `circuitInverse`, i.e. the reversed list of the
+gates' inverses, each on the wires of its gate – times the matrix of `C` is the identity, provided each gate's
+`inverse()` inverts its matrix (which `C03_inverse_mul` establishes for every gate tree). -/
+theorem C03_circuit_inverse_embedded {n : ℕ} (c : List (PlacedPair n)) (h : ∀ p ∈ c, p.ginv * p.g = 1) :
+    regMat (Qib.Embed.circuitInverse PlacedPair.inverse c) * regMat c = 1 := by
+  have := C03_circuit_inverse_mul (c.map fun p => (Qib.Embed.embed p.iw p.g, Qib.Embed.embed p.iw p.ginv)) (by
+    intro q hq
+    obtain ⟨p, hp, rfl⟩ := List.mem_map.mp hq
+    simp only
+    rw [Qib.Embed.embed_mul, h p hp, Qib.Embed.embed_one])
+  have e1 : (Qib.Embed.circuitInverse PlacedPair.inverse c).map PlacedPair.mat
+      = ((c.map fun p => (Qib.Embed.embed p.iw p.g, Qib.Embed.embed p.iw p.ginv)).reverse.map Prod.snd) := by
+    simp [Qib.Embed.circuitInverse, PlacedPair.mat, PlacedPair.inverse, List.map_reverse, Function.comp_def]
+  have e2 : c.map PlacedPair.mat = (c.map fun p => (Qib.Embed.embed p.iw p.g, Qib.Embed.embed p.iw p.ginv)).map Prod.fst := by
+    simp [PlacedPair.mat, Function.comp_def]
+  rw [regMat, regMat, e1, e2]
+  exact this
+
+/-- non-vacuity: a two-gate circuit on three wires whose gates are inverted gate-wise -/
+example : ∃ c : List (PlacedPair 3), c.length = 2 ∧ ∀ p ∈ c, p.ginv * p.g = 1 :=
+  ⟨[⟨1, ⟨fun _ => 0, fun _ _ _ => Subsingleton.elim _ _⟩, 1, 1⟩, ⟨1, ⟨fun _ => 2, fun _ _ _ => Subsingleton.elim _ _⟩, 1, 1⟩], rfl, by
+    intro p hp; simp at hp; rcases hp with rfl | rfl <;> simp⟩
 
 end Qib.C03
